@@ -2023,6 +2023,9 @@ pub fn explore(cfg: Config, body: &mut dyn FnMut()) -> Report {
     loop {
         let next = with(|e| {
             if e.stats.paths >= e.cfg.max_paths { e.stats.truncated = !e.worklist.is_empty(); return None; }
+            // enough counterexample candidates: stop exploring (the instance is then reported as truncated, which only
+            // matters if none of the candidates is confirmed by replay)
+            if e.candidates.len() >= 8 && !e.worklist.is_empty() { e.stats.truncated = true; e.notes.push("exploration stopped early: 8 counterexample candidates collected".into()); return None; }
             e.worklist.pop()
         });
         let prefix = match next { Some(p) => p, None => break };
